@@ -107,15 +107,18 @@ def check_text(t, res, fam, full=True):
         if ref_text != t:
             res.violation('C05|codearea|ref-mismatch|%s' % mode,
                           'code area for %r decodes (reference, %s) to %r' % (t[:40], mode, ref_text[:60]), case)
-        try:
-            n2, code2, cs2 = p8png.get_code_from_bytes(ba, 8)
-        except Exception as e:
-            res.violation('C05|codearea|read-raise|%s' % type(e).__name__, 'get_code_from_bytes raised %r' % e, case)
-            return
-        ok = (code2 == t) or (cs2 is None and code2 == t + b'\n')
-        if not ok:
-            res.violation('C05|codearea|roundtrip|%s' % ('raw' if cs2 is None else 'cmp'),
-                          'get_code_from_bytes(get_bytes_from_code(%r)) = %r' % (t[:40], code2[:60]), case)
+        # the writer never looks at the cart version, so the reader must decode the area under every version byte
+        for ver in ((0, 8, 1, 255) if len(t) <= 64 else (0, 8)):
+            try:
+                n2, code2, cs2 = p8png.get_code_from_bytes(ba, ver)
+            except Exception as e:
+                res.violation('C05|codearea|read-raise|%s' % type(e).__name__,
+                              'get_code_from_bytes(area, %d) raised %r' % (ver, e), case)
+                return
+            ok = (code2 == t) or (cs2 is None and code2 == t + b'\n')
+            if not ok:
+                res.violation('C05|codearea|roundtrip|%s|v%d' % ('raw' if cs2 is None else 'cmp', ver),
+                              'get_code_from_bytes(get_bytes_from_code(%r), version=%d) = %r' % (t[:40], ver, code2[:60]), case)
         res.outcome(('mode', mode, has_ref))
 
 
